@@ -16,7 +16,7 @@ pub open spec fn getter_calls(bfs: Seq<Bitfield>, k: int) -> Seq<Option<Tok>>
 UNIT = {
     "name": "impl_debug",
     "env": [os.path.join(ENV, "impl_debug_env.rs")],
-    "declared_trusted": {r"external_body": 29},
+    "declared_trusted": {r"external_body": 37},
     "items": [
         {"kind": "fn", "file": "bindgen/codegen/impl_debug.rs", "name": "array_arm", "impl": r"^impl<'a> ImplDebug<'a> for Item$", "ret": "r",
          "closure": {"enclosing": "impl_debug", "anchor": "TypeKind::Array(t, len) => {", "nth": 0,
@@ -34,6 +34,25 @@ UNIT = {
              "ctx.s_item(t).s_debuggable(ctx) ==> r.is_some() && (!self_.s_tp_in_array(ctx) ==> prints_member(r.unwrap()))",
          ]},
 
+        {"kind": "fn", "file": "bindgen/codegen/impl_debug.rs", "name": "instantiation_arm", "impl": r"^impl<'a> ImplDebug<'a> for Item$", "ret": "r",
+         "closure": {"enclosing": "impl_debug", "anchor": "TypeKind::TemplateInstantiation(ref inst) => {", "nth": 0,
+                     "signature": "fn instantiation_arm(self_: &Item, ctx: &BindgenContext, name: &str, name_ident: &Tok, inst: &TemplateInstantiation) -> (r: Option<Piece>)"},
+         "subst": [
+             ('Some((format!("{name}: opaque"), vec![]))', "Some(piece_opaque(name))", 1, "R4"),
+             ("debug_print(name, &quote! { #name_ident })", "debug_print_member(name, name_ident)", 1, "R4"),
+             ("for arg in inst.template_arguments()", "let mut it = IdCursor::new(inst.template_arguments()); while it.has_next()", 0, "R13 (if present)"),
+             ("ctx.resolve_item(arg)", "ctx.resolve_item(*arg)", 0, "R13 element by reference (if present)"),
+             ("self", "self_", 1, "R18 captured self"),
+         ],
+         "loops": {0: {"body_start": "let arg = it.next_item();", "decreases": "it.all().len() - it.pos()",
+                       "invariant": ["it.all() == inst.s_args() && 0 <= it.pos() <= it.all().len()", "!inst.s_opaque(ctx, self_)",
+                                     "forall|j: int| 0 <= j < it.pos() ==> ctx.s_item(#[trigger] inst.s_args()[j]).s_debuggable(ctx)"]}},
+         "ensures": [
+             # C10 (as F19): a member is printed with {:?} only if every template argument takes part in Debug impls -
+             # `derive(Debug)` on the template demands `T: Debug` of each
+             "r.is_some() && prints_member(r.unwrap()) ==> forall|j: int| 0 <= j < inst.s_args().len() ==> ctx.s_item(#[trigger] inst.s_args()[j]).s_debuggable(ctx)",
+             "inst.s_opaque(ctx, self_) ==> r.is_some() && !prints_member(r.unwrap())",
+         ]},
         {"kind": "raw", "label": "spec", "text": SPEC},
         {"kind": "fn", "file": "bindgen/codegen/impl_debug.rs", "name": "impl_debug", "impl": r"^impl ImplDebug<'_> for BitfieldUnit$", "impl_header": "impl BitfieldUnit", "impl_name": "BitfieldUnit", "ret": "r",
          "subst": [
